@@ -19,8 +19,56 @@ impl TimeoutChecker {
     }
 
     pub fn check_timeout(&mut self) -> bool {
+        #[cfg(boreal_verif)]
+        if let Some(fired) = verif::on_check() {
+            return fired;
+        }
         self.counter = self.counter.wrapping_add(1);
         self.counter % (10 * 1024) == 0 && self.start.elapsed() >= self.duration
+    }
+}
+
+/// Verification hook: deterministic timeouts.
+///
+/// When a firing point is set for the current thread, the n-th call to `check_timeout`
+/// (and every later one) reports a timeout, regardless of the clock. The number of calls is
+/// counted so that the check points of a scan can be enumerated.
+#[cfg(boreal_verif)]
+#[doc(hidden)]
+pub mod verif {
+    use std::cell::Cell;
+
+    thread_local! {
+        static FIRE_AT: Cell<Option<u64>> = const { Cell::new(None) };
+        static CHECKS: Cell<u64> = const { Cell::new(0) };
+        static COUNTING: Cell<bool> = const { Cell::new(false) };
+    }
+
+    /// Set the firing point (1-based index of the check that times out), reset the counter.
+    ///
+    /// `None` with `counting` true only counts the checks, and never fires.
+    pub fn set(fire_at: Option<u64>, counting: bool) {
+        FIRE_AT.with(|v| v.set(fire_at));
+        COUNTING.with(|v| v.set(counting));
+        CHECKS.with(|v| v.set(0));
+    }
+
+    /// Number of checks done since the last call to [`set`].
+    #[must_use]
+    pub fn checks() -> u64 {
+        CHECKS.with(Cell::get)
+    }
+
+    pub(super) fn on_check() -> Option<bool> {
+        if !COUNTING.with(Cell::get) {
+            return None;
+        }
+        let n = CHECKS.with(|v| {
+            let n = v.get() + 1;
+            v.set(n);
+            n
+        });
+        Some(FIRE_AT.with(Cell::get).is_some_and(|at| n >= at))
     }
 }
 
